@@ -110,25 +110,34 @@ Proof.
     split; [simpl; rewrite St; reflexivity|]. split; [exact R|intros Hx; discriminate].
 Qed.
 
-(* and a call made on an ended link fails at once, whatever else is going on *)
+(* and a call made on an ended link fails at once, whatever else is going on: it returns the
+   'closed' error without registering, writing or REPORTING anything (a failing marshal of its
+   arguments is the only thing it can still report) *)
 Lemma call_after_end_fails_lemma calls s i cs0 :
   lreachable fixed calls s -> bclosed s = true -> tget (threads s) (TCall i) = None -> nth_error calls i = Some cs0 ->
-  exists s1, lstep fixed calls s (Env (EStart i)) 0 = Some s1 /\
-             exists e, tget (threads s1) (TCall i) = Some (SetErrMid e (KReturn e)) /\ tbl s1 = [] /\ evs s1 = evs s.
+  exists s1, lstep fixed calls s (Env (EStart i)) 0 = Some s1 /\ tbl s1 = [] /\
+             ((exists x, tget (threads s1) (TCall i) = Some (SetErrMid (EInj x) (KReturn (EInj x))) /\ evs s1 = evs s) \/
+              (tget (threads s1) (TCall i) = Some (CReturned zero (Some EClosed)) /\
+               evs s1 = EvReturn i zero (Some EClosed) :: evs s /\ fatal s1 = fatal s)).
 Proof.
   intros Hreach Hb Ht Hn.
   pose proof (lno_crash_lemma _ _ _ Hreach) as Hc.
-  assert (Step : lstep fixed calls s (Env (EStart i)) 0 = step_env calls s (EStart i)) by (unfold lstep; rewrite Hc; reflexivity).
+  assert (Step : lstep fixed calls s (Env (EStart i)) 0 = step_env fixed calls s (EStart i)) by (unfold lstep; rewrite Hc; reflexivity).
   rewrite Step. unfold step_env. rewrite Ht, Hn.
   set (s0 := if c_closure cs0 then with_closures s (i :: closures s) else s).
   assert (B0 : bclosed s0 = true) by (unfold s0; destruct (c_closure cs0); exact Hb).
   assert (E0 : evs s0 = evs s) by (unfold s0; destruct (c_closure cs0); reflexivity).
+  assert (F0 : fatal s0 = fatal s) by (unfold s0; destruct (c_closure cs0); reflexivity).
+  assert (TB : tbl s = []) by (destruct (InvT_reachable calls s Hreach) as (_ & _ & K); auto).
+  assert (TB0 : tbl s0 = []) by (unfold s0; destruct (c_closure cs0); exact TB).
   destruct (take_fault s0 2) as [[x|] s1] eqn:Ef.
-  - eexists. split; [reflexivity|]. exists (EInj x). destruct (caller_panic_state calls s1 i (EInj x)) as (_ & T1).
-    split; [exact T1|]. split; [reflexivity|]. unfold take_fault in Ef; inversion Ef; subst. exact E0.
+  - eexists. split; [reflexivity|]. split; [reflexivity|]. left. exists x.
+    destruct (caller_panic_state calls s1 i (EInj x)) as (_ & T1).
+    split; [exact T1|]. unfold take_fault in Ef; inversion Ef; subst. exact E0.
   - assert (B1 : bclosed s1 = true) by (unfold take_fault in Ef; inversion Ef; subst; exact B0).
-    rewrite B1. eexists. split; [reflexivity|]. exists EClosed. destruct (caller_panic_state calls s1 i EClosed) as (_ & T1).
-    split; [exact T1|]. split; [reflexivity|]. unfold take_fault in Ef; inversion Ef; subst. exact E0.
+    rewrite B1. simpl report_closed. cbv iota. eexists. split; [reflexivity|].
+    unfold take_fault in Ef; inversion Ef; subst. split; [exact TB0|]. right.
+    split; [unfold caller_return; simpl; apply tget_tset_same|]. split; [simpl; rewrite E0; reflexivity|exact F0].
 Qed.
 
 (* C04: a started call whose own context is cancelled returns after a bounded number of its own
